@@ -191,10 +191,7 @@ Section ICMP6.
             Ok tt)
        else if t =? 133 then   (* router solicitation: IsValid len >= 8 && type; debug: SourceLLA *)
          when (ie_debug e)
-           (_ <- idx p 1 ;;      (* SourceLLA as repaired by 24e521d *)
-            if Nat.ltb (len p) 16 then Ok tt
-            else a <- idx p 8 ;; b <- idx p 9 ;;
-                 if (a =? 1) && (b =? 1) then _ <- sl p 10 16 ;; Ok tt else Ok tt)
+           (_ <- idx p 1 ;; lla_option_at p 8 1)       (* SourceLLA as repaired by 24e521d: p[10:16] *)
        else if t =? 129 then when (ie_debug e) (echo_fastlog p)
        else if t =? 128 then when (ie_debug e) (echo_fastlog p)
        else if t =? 137 then   (* redirect: IsValid len >= 40; debug: String() *)
